@@ -184,6 +184,9 @@ def scenarios():
         ('select avg(a2), variance(a2), a1 group by a1', Tn, None, None),
         ('select distinct count a1 order by a1 desc', T0, None, None),
         ('select unnest([a1]), unnest([a2])', T0, None, None),          # parsing error raised inside the main loop
+        ("select " + ", ".join("like(a1, 'k%s%%')" % c for c in 'abcdefghij') + ", like(a2, '%_')", [['ka', 'x'], ['kj', ''], ['k', 'y']], None, None),     # ten distinct LIKE patterns
+        ("select like(a1, 'ka%'), like(a1, 'kj%'), like(a2, '%_'), like(a1, 'k_')", [['kax', 'x'], ['kj', ''], ['ka', 'y']], None, None),
+        ('select distinct count a.name, a2 + "!"', [['k', '1'], ['k', '1'], ['m', '2']], None, ['name', 'val']),
         ('select a1, int(a2) order by a1 desc', [['k', '1'], ['m', 'bad'], ['k', '3']], None, None),      # fails at record 2 with rows already buffered for sorting
         ('select a2, a1 order by a2', [['k', '7'], ['m', '5']], None, None),
         ('select a["val"], NR', [['k', '1'], ['m', '2']], None, ['name', 'val']),
@@ -333,7 +336,7 @@ def main(tier, seed):
     res = core.run_shards('vf.checks.c16', shards)
     return core.finish(PID, tier, seed, res, t0,
         rule='threads: all unordered pairs of 14 query kinds (same-kind pairs with different data) x every interleaving of their scheduling points (start, each get_record on input and join table, each write, finish) within the preemption bound, plan (records, bound) = %r; '
-             'histories: the complete tree of sequences of <= %d events over 22 scenarios, every node a forked live interpreter; states = interleavings + history nodes, transitions = baton grants + history edges; '
+             'histories: the complete tree of sequences of <= %d events over 25 scenarios, every node a forked live interpreter; states = interleavings + history nodes, transitions = baton grants + history edges; '
              'non-trivial = schedules with >= 2 context switches / histories of length >= 1' % (plan, depth),
         assumptions=['scheduling points are exactly the points the property names; code between them runs atomically', 'the solo outcome is computed in a fresh python subprocess per query'],
         extra={'pairs': npairs, 'interleavings': total_interleavings, 'history_depth': depth, 'plan_records_and_preemption_bound': [[n, ('all' if b is None else b)] for n, b in plan]},
